@@ -82,6 +82,7 @@ func (p *recSP) count(id trace.SpanID) int {
 type recSpanExp struct {
 	exports, afterShutdown atomic.Int32
 	shutdowns              atomic.Int32
+	failClose              bool // Shutdown reports an error (a connection that fails to close)
 }
 
 // readSpans reads every span of a batch the way any real exporter does when it encodes it.
@@ -102,7 +103,13 @@ func (e *recSpanExp) ExportSpans(_ context.Context, ss []sdktrace.ReadOnlySpan) 
 	}
 	return nil
 }
-func (e *recSpanExp) Shutdown(context.Context) error { e.shutdowns.Add(1); return nil }
+func (e *recSpanExp) Shutdown(context.Context) error {
+	e.shutdowns.Add(1)
+	if e.failClose {
+		return errors.New("scripted: exporter failed to close")
+	}
+	return nil
+}
 
 type recMetricExp struct {
 	exports, afterShutdown, shutdowns atomic.Int32
@@ -366,12 +373,17 @@ func names(ps []*recSP) []string {
 func runTraceStock(k *vf.Case) {
 	r := k.R
 	procKind := vf.Pick(r, []string{"simple", "batch"})
-	expKind := vf.Pick(r, []string{"recording", "stdout", "nil"})
+	expKind := vf.Pick(r, []string{"recording", "stdout", "nil", "failing-close"})
 	buf := &safeBuf{}
 	rec := &recSpanExp{}
 	var exp sdktrace.SpanExporter
 	switch expKind {
 	case "recording":
+		exp = rec
+	case "failing-close":
+		// an exporter whose Shutdown reports an error: the processors may pass the error on or hand it to the
+		// error handler, but every Shutdown call still returns
+		rec.failClose = true
 		exp = rec
 	case "stdout":
 		e, err := stdouttrace.New(stdouttrace.WithWriter(buf))
@@ -444,7 +456,7 @@ func runTraceStock(k *vf.Case) {
 			default:
 				tp.UnregisterSpanProcessor(sp)
 			}
-			if err != nil && kind == "live" {
+			if err != nil && kind == "live" && expKind != "failing-close" {
 				fail("shutdown-error", "", err.Error())
 			}
 		}
@@ -471,10 +483,10 @@ func runTraceStock(k *vf.Case) {
 	if err := tp.ForceFlush(context.Background()); err != nil {
 		fail("forceflush-after-shutdown-error", "", err.Error())
 	}
-	if err := tp.Shutdown(context.Background()); err != nil {
+	if err := tp.Shutdown(context.Background()); err != nil && expKind != "failing-close" {
 		fail("repeated-shutdown-error", "", err.Error())
 	}
-	if err := sp.Shutdown(context.Background()); err != nil {
+	if err := sp.Shutdown(context.Background()); err != nil && expKind != "failing-close" {
 		fail("repeated-shutdown-error", "processor", err.Error())
 	}
 	time.Sleep(3 * time.Millisecond)
